@@ -92,7 +92,10 @@ def run(ctx):
     if not binp:
         return
     n = 1500 if ctx.tier == "quick" else 20000
-    rc, rows, err = ctx.jsonl([binp, "gen", "-seed", str(ctx.seed), "-n", str(n)], timeout=1200)
+    # corpus/c24/regress.jsonl: minimised inputs from earlier detections, run first on every seed and tier
+    rc, rows, err = ctx.jsonl([binp, "gen", "-seed", str(ctx.seed), "-n", str(n), "-in", "corpus/c24/regress.jsonl"], timeout=1200)
+    if not any(r.get("stream") == "regress" for r in rows):
+        ctx.broken.append(("harness-run", "regression corpus corpus/c24/regress.jsonl was not visited"))
     if ctx.tier == "thorough":
         rc2, rows2, err2 = ctx.jsonl([binp, "exhaustive", "-n", "4"], timeout=1800)
         rc, err = rc or rc2, err + err2
@@ -200,7 +203,7 @@ def run(ctx):
     ctx.extra["known_classes_confirmed_by_pinned_witness"] = pinned_ok
     ctx.extra["failing_cases_outside_property_domain_skipped"] = ood_skipped
     for r in rows:
-        if r["stream"] == "pinned-fixed" and r["fails"]:
+        if r["stream"] in ("pinned-fixed", "regress") and r["fails"] and not r["class"]:
             ctx.fail("repaired_case_fails_again", show(r), None, {"go_stdout": r["iout"], "bash_stdout": r["bout"]})
     for r in rows[:2] + [x for x in rows if x["stream"] == "scope"][:3]:
         ctx.sample({"argv": show(r)["argv"], "go_stdout_hex": r["iout"], "go_status": r["ist"], "bash_stdout_hex": r["bout"],
